@@ -3,6 +3,7 @@ import itertools
 from ..core import Family
 from .. import plevel
 
+PROPERTY_FILES = ["C12", "C12F"]
 TRUSTED_BASE = [
     "Coq 8.16.1 kernel (coqc full .vo build)",
     "hand-written model coq/Model/Dom.v of Context::try_set_min/try_set_max (views.rs:185-497, integer branches) over abstract domains; Properties/C12.v remove_below_refines ties the abstract domain operations to the verified SparseSet model (C11)",
@@ -80,3 +81,10 @@ FAMILIES = [
     Family("int_exhaustive", "ctx", gen_exhaustive, split=split, nontrivial=nontrivial, prop_judge=judge_ctx, exhaustive=True),
     Family("int_random", "ctx", gen_random, split=split, nontrivial=nontrivial, prop_judge=judge_ctx),
 ]
+
+# float half (FloatInterval primitives, float branches of try_set_min/max): families and judge live in c12f.py
+from . import c12f as _f
+FAMILIES += _f.FAMILIES
+TRUSTED_BASE = TRUSTED_BASE + [t for t in _f.TRUSTED_BASE if t not in TRUSTED_BASE]
+ASSUMPTIONS = ASSUMPTIONS + [a for a in _f.ASSUMPTIONS if a not in ASSUMPTIONS]
+RULE = RULE + " || float half: " + _f.RULE
